@@ -256,7 +256,7 @@ func c32RaceBin() string {
 
 func c32BuildRace() {
 	exe, _ := os.Executable()
-	build := filepath.Dir(exe)         // /verif/.build
+	build := filepath.Dir(exe) // /verif/.build
 	harness := filepath.Join(filepath.Dir(build), "harness")
 	args := []string{"build", "-race"}
 	if repo := os.Getenv("VERIF_REPO"); repo != "" && filepath.Clean(repo) != "/repo" {
@@ -363,25 +363,43 @@ func (c32) Run(raw json.RawMessage) Result {
 	if _, err := os.Stat(bin); err != nil {
 		c32BuildRace()
 	}
-	cmd := exec.Command(bin, "child", "C32", string(raw))
-	cmd.Env = append(os.Environ(), "GORACE=halt_on_error=0 exitcode=0 history_size=3")
+	// A scenario that does not finish before the deadline is only *suspected* to hang: it is run
+	// again, up to 2 more times, with a 5x longer deadline. "failed: timed out" is recorded only if
+	// every attempt times out (a deadlock stays one; a child that was merely slow on a loaded
+	// machine completes). Reports are parsed from the last (completed) attempt only.
 	var stdout, stderr bytes.Buffer
-	cmd.Stdout, cmd.Stderr = &stdout, &stderr
-	done := make(chan error, 1)
-	if err := cmd.Start(); err != nil {
-		die("C32: cannot start the race-detector child: %v", err)
-	}
-	go func() { done <- cmd.Wait() }()
 	var obs c32Obs
-	select {
-	case err := <-done:
-		if err != nil && !strings.Contains(stderr.String(), "DATA RACE") {
-			obs.Failed = fmt.Sprintf("child: %v: %s", err, c32Tail(stderr.String(), 300))
+	for attempt := 0; attempt < 3; attempt++ {
+		dl := 90 * time.Second
+		if attempt > 0 {
+			dl = 450 * time.Second
 		}
-	case <-time.After(60 * time.Second):
-		cmd.Process.Kill()
-		<-done
-		obs.Failed = "child timed out"
+		stdout.Reset()
+		stderr.Reset()
+		obs.Failed = ""
+		cmd := exec.Command(bin, "child", "C32", string(raw))
+		cmd.Env = append(os.Environ(), "GORACE=halt_on_error=0 exitcode=0 history_size=3")
+		cmd.Stdout, cmd.Stderr = &stdout, &stderr
+		done := make(chan error, 1)
+		if err := cmd.Start(); err != nil {
+			die("C32: cannot start the race-detector child: %v", err)
+		}
+		go func() { done <- cmd.Wait() }()
+		timedOut := false
+		select {
+		case err := <-done:
+			if err != nil && !strings.Contains(stderr.String(), "DATA RACE") {
+				obs.Failed = fmt.Sprintf("child: %v: %s", err, c32Tail(stderr.String(), 300))
+			}
+		case <-time.After(dl):
+			cmd.Process.Kill()
+			<-done
+			obs.Failed = "child timed out"
+			timedOut = true
+		}
+		if !timedOut {
+			break
+		}
 	}
 	if !strings.Contains(stdout.String(), "C32-CHILD-DONE") && obs.Failed == "" {
 		obs.Failed = "child did not finish: " + c32Tail(stderr.String(), 300)
